@@ -348,10 +348,10 @@ def client_violations():
               ("input_types_module_name", "input-types-module-name"), ("fragments_module_name", "fragments-module-name")]
     for key, cid in fields:
         for bad in NON_IDENTS:
-            cls = "F16-name-not-validated" if key == "fragments_module_name" else None
-            v.append((f"{key}-nonident-{bad!r}", cid, setv(key, bad), cls, ("o_names", "o_names_odd")))
+            v.append((f"{key}-nonident-{bad!r}", cid, setv(key, bad), None, ("o_names", "o_names_odd")))
         for kw in KEYWORDS:
-            v.append((f"{key}-keyword-{kw}", cid, setv(key, kw), "F16-name-not-validated", ("o_names", "o_names_odd")))
+            # former finding F16 (fixed: /repo 0631414) — kept in the main stream as regression cases
+            v.append((f"{key}-keyword-{kw}", cid, setv(key, kw), None, ("o_names", "o_names_odd")))
     for bad in ["1x", "a-b", ""]:
         def f(c, bad=bad):
             c["files"]["my_base.py"] = f"class {bad}:\n    pass\nclass MyBase: pass\n"
@@ -449,7 +449,7 @@ def schema_violations():
         for bad in ["1a", "a-b", "", "a b"]:
             v.append((f"{key}-nonident-{bad!r}", cid, setv(key, bad), None))
         for kw in ["class", "None", "lambda"]:
-            v.append((f"{key}-keyword-{kw}", cid, setv(key, kw), "F16-name-not-validated"))
+            v.append((f"{key}-keyword-{kw}", cid, setv(key, kw), None))   # former F16, regression
     out = []
     for pre in (False, True):
         for kind, cid, mut, cls in v:
